@@ -23,7 +23,7 @@ from .. import tlc
 
 LEVEL = "model_checking"
 CLAUSES = ["InFamily", "Dense", "ConnMap", "ConnSym", "BoundaryTagUpdate", "BoundaryTagsStored", "SignsCells",
-           "CellNodeMap", "VecDiv"]
+           "CellNodeMap", "VecDiv", "QueriesPure"]
 MACHINERY = {"InFamily"}
 
 
@@ -82,14 +82,19 @@ def observe(g, queries):
     from porepy.utils import tags as pptags
 
     out = {}
+    cf_obj, cf0 = g.cell_faces, g.cell_faces.copy()   # the incidence as it is before the queries
     out["dense"] = [[int(x) for x in row] for row in np.asarray(g.cell_faces_as_dense())]
     out["conn"] = [[r, c] for r, c, v in entries(g.cell_connection_map().astype(int))]
-    h = g.copy()
-    h.tags["domain_boundary_faces"] = np.ones(h.num_faces, dtype=bool)  # must be recomputed, not kept
-    h.update_boundary_face_tag()
-    out["bnd_updated"] = [int(f) for f in np.where(h.tags["domain_boundary_faces"])[0]]
+    try:
+        h = g.copy()
+        h.tags["domain_boundary_faces"] = np.ones(h.num_faces, dtype=bool)  # must be recomputed, not kept
+        h.update_boundary_face_tag()
+        out["bnd_updated"] = [int(f) for f in np.where(h.tags["domain_boundary_faces"])[0]]
+    except Exception:  # observation (e.g. the copy is refused because an earlier query damaged the incidence): -1 is no face
+        out["bnd_updated"] = [-1]
     out["bnd_tags"] = [int(f) for f in np.where(pptags.all_face_tags(g.tags))[0]]
-    assert sorted(out["bnd_tags"]) == sorted(int(f) for f in g.get_all_boundary_faces())
+    if sorted(out["bnd_tags"]) != sorted(int(f) for f in g.get_all_boundary_faces()):
+        out["bnd_tags"] = [-1]
     sc = []
     for q in queries:
         fa = np.array(q, dtype=int)
@@ -104,6 +109,13 @@ def observe(g, queries):
     for d in (1, 2, 3):
         m = g.divergence(d)
         out["div"].append(dict(d=d, shape=[int(m.shape[0]), int(m.shape[1])], ent=entries(m)))
+    # queries must not change the grid: count the damage (clause QueriesPure) and undo it, so that later stages of an
+    # in-place scenario export a well-formed incidence again
+    now = g.cell_faces
+    same_shape = now.shape == cf0.shape
+    out["mutated"] = int((now != cf0).nnz) if same_shape else -1
+    if out["mutated"] != 0:
+        g.cell_faces = cf0
     return out
 
 
